@@ -148,7 +148,7 @@ class Check:
             path = os.path.join(VERIF, rp)
             with open(path) as f:
                 rep = json.load(f)
-            root = os.path.join(self.scratch, 'pinned')
+            root = os.path.join(self.scratch, 'p' + '0' * 15)
             try:
                 vios = self.mod.replay(rep, root)
             finally:
@@ -189,7 +189,7 @@ class Check:
             nonlocal index
             s = derive_seed(self.seed, self.prop, index)
             index += 1
-            root = os.path.join(self.scratch, 'w{}'.format(s))
+            root = os.path.join(self.scratch, 'w{:015d}'.format(s))
             res = os.path.join(self.scratch, 'r{}.pkl'.format(s))
             sys.stdout.flush()
             sys.stderr.flush()
@@ -294,7 +294,7 @@ class Check:
                     continue
                 if minimise and sig not in seen_sigs and \
                    len(seen_sigs) < 4 and time.monotonic() < budget_end:
-                    root = os.path.join(self.scratch, 'min')
+                    root = os.path.join(self.scratch, 'm' + '0' * 15)
                     try:
                         rep2, v2 = minimise(rep, v, root,
                                             deadline=min(
@@ -513,7 +513,7 @@ def main(argv=None):
                                      mp_context=ctx) as pool:
             futs = {s: pool.submit(_case_worker, (
                 MODULES[args.prop], s,
-                os.path.join(chk.scratch, 'w{}'.format(s)), chk.params))
+                os.path.join(chk.scratch, 'w{:015d}'.format(s)), chk.params))
                 for s in seeds}
             for s, f in futs.items():
                 kind, data = f.result()
@@ -528,12 +528,16 @@ def main(argv=None):
         with open(args.replay) as f:
             rep = json.load(f)
         from . import world as W
+        # every world of every mode has a root of the same length: the
+        # numbered flush events of a written file depend on the length of
+        # the paths it mentions
         root = os.path.join(W.scratch_root(), args.prop,
-                            'replay{:05d}'.format(os.getpid() % 10**5))
+                            'r{:07d}'.format(os.getpid() % 10**7),
+                            'x' + '0' * 15)
         try:
             vios = mod.replay(rep, root)
         finally:
-            shutil.rmtree(root, ignore_errors=True)
+            shutil.rmtree(os.path.dirname(root), ignore_errors=True)
         want = rep.get('violation')
         for v in vios:
             print('VIOLATION property={} replay={}'.format(args.prop,
